@@ -9,6 +9,7 @@ CFG = dict(
         "aabb_lower_bound", "aabb_contains_mono", "aabb_distance_mono", "slab_mono", "slab_sound", "aabb_encapsulate_contains",
         # Props/C16Slab.lean: hand slab model vs the regenerated slab test
         "PolyVerif.Tree.slabArith_eq_gen", "PolyVerif.Tree.slabFold_eq_gen", "PolyVerif.Tree.intersectsRayInRange_eq_slabFold", "PolyVerif.Tree.intersectsRayInRange_eq_gen",
+        "PolyVerif.Tree.SlabGen.epsGap_pos", "PolyVerif.Tree.SlabGen.gen_eq_hand_grow", "PolyVerif.Tree.SlabGen.slab_mono_gen", "PolyVerif.Tree.SlabGen.slab_sound_gen",
         "seg_cp_cases", "tri_closest_in_box", "prim_closest_in_box", "prim_box_wf",
         # pruned queries = exhaustive scan for EVERY tree with the invariant
         "pruned_eq_scan", "containing_eq_scan_generic",
@@ -73,9 +74,11 @@ CFG = dict(
         "*float64 out-parameters threaded as a result tuple). Props/C16Slab.lean: the hand arithmetic of one slab IS the regenerated component "
         "function at every scalar (slabArith_eq_gen); the regenerated three-axis test is the composition of slabArith with the source's float64 "
         "kEpsilon (slabFold_eq_gen); the hand model of the whole test is the same composition with kEps = 1e-10 when no direction component is "
-        "zero (intersectsRayInRange_eq_slabFold). REMAINS: the ray theorems (slab_mono, slab_sound, …) are still stated about the hand model: "
-        "over R the decimal kEps and the float64 constant differ (< 1e-26), and for zero direction components the hand model spells out the "
-        "IEEE outcome of 1/±0 which the real reading of the source cannot express; at Float hand model = regenerated function = Go is checked "
+        "zero (intersectsRayInRange_eq_slabFold). slab_mono_gen / slab_sound_gen (Props/C16Slab.lean) carry slab_mono / slab_sound over to the REGENERATED IntersectsRayInRange over R "
+        "for rays with no zero direction component: over R the regenerated code widens by the exact rational of the float64 kEpsilon (7737125245533627/2^86 = "
+        "kEps + 3.6e-27), which is the hand model on the box grown by that gap (gen_eq_hand_grow). REMAINS: the octree / BVH theorems are still "
+        "instantiated with the hand model; for ZERO direction components the hand model spells out the IEEE outcome of 1/±0, which the real "
+        "reading of the source expression (1/0 = 0) cannot express — no theorem about the regenerated definition there; at Float hand model = regenerated function = Go is checked "
         "on every c16.aabb.ray line (the driver evaluates both and prints a mismatch marker if they differ)",
         "zero direction components: the slab model makes the IEEE outcome of 1/±0 explicit (origin strictly inside the widened slab: range "
         "unchanged; strictly outside: reject), so slab_mono / slab_sound and every ray theorem cover axis-parallel rays. The corner 'origin "
